@@ -157,6 +157,10 @@ class C12(HistoryProperty):
                     continue
                 res.bump("fault_surfaced")
                 failed_ops.append(i)
+                if not surfaced_all:
+                    # an EARLIER fault of this run was masked: whatever its fallback path stored (legitimately) now shapes
+                    # the outcomes, so the fault-free yardsticks below no longer apply to this run
+                    continue
                 # datasets whose own evaluation failed: the sources named along the cause chain
                 failed_ds = self._failed_cache_names(wf, out.exc)
                 # bounded liveness: faults stopped -> the very next evaluation of the same dictionary succeeds/fails as on a fault-free twin
